@@ -387,10 +387,11 @@ def cases(tier, seed):
 def run(run):
     run.rule = (
         "E2 + R3: pico documents obtained by converting sources built from 7 shapes (rect, triangle, circle, evenodd ring, cubic with extrema between control points, translucent two-shape group, "
-        "gradient-filled rect) placed at each of 25 grid positions relative to the viewBox (inside, outside x8, straddling each side and corner) + covering shapes, 3 viewBoxes (incl. negative and "
+        "gradient-filled rect; and, written in absolute coordinates so that the gradient stays in bounding-box units and shared: rect / ellipse with linear / radial bounding-box gradients, rect with a user-space gradient, singly and in pairs sharing the gradient) placed at each of 25 grid positions relative to the viewBox (inside, outside x8, straddling each side and corner) + covering shapes, 3 viewBoxes (incl. negative and "
         "fractional origin/size), single shapes, all/half of the position pairs of two shapes (in-place mode), kept group around two shapes, triples (thorough); CLI flag on 20 documents. Oracle: "
         "clipped document == original under a clip to the viewBox rectangle (paint stacks and composites at all lattice/probe points outside the band), R4 grammar. Bounding boxes: exact-extrema "
-        "boxes (Bezier derivative roots, ellipse parametrisation) for a library of paths and the C09 shape lattice, document box = union. Non-trivial = clip cases where a shape straddles or lies "
+        "boxes (Bezier derivative roots, ellipse parametrisation) for a library of paths and the C09 shape lattice, document box = union over all ordered selections of 1-2 (thorough: 3) of 8 shapes incl. horizontal / vertical lines and a point; "
+        "Rect.union / Rect.intersection on all 81 x 81 pairs of a box lattice incl. zero-width / zero-height boxes. Non-trivial = clip cases where a shape straddles or lies "
         "outside the viewBox; distinct bbox shapes."
     )
     run.assumptions = ["bounding boxes compared with 1e-4 relative tolerance (Skia stores float32)"]
